@@ -57,7 +57,8 @@ Record bfs := mkB {
   upperbound : option Q ;
   min_reached : bool ;
   n_visited : nat ; n_next : nat ; n_enq : nat ; n_backjumps : nat ;
-  pen_stats : stats
+  pen_stats : stats ;
+  n_pushback : nat               (* GHOST (not in the Python object): how often the repaired push-back branch ran *)
 }.
 
 Definition get_stats (b : bfs) : stats := mkSt (n_visited b) (n_next b) (n_enq b) (n_backjumps b).
@@ -71,10 +72,10 @@ Section Search.
   (* BestFirstPriorityQueue.put *)
   Definition pq_put (b : bfs) (s : dstate) (depth : nat) (c : Q) : bfs :=
     mkB (mkQE c depth (tape (pushes b)) (pushes b) s :: pq b) (S (pushes b)) (upperbound b) (min_reached b)
-        (n_visited b) (n_next b) (n_enq b) (n_backjumps b) (pen_stats b).
+        (n_visited b) (n_next b) (n_enq b) (n_backjumps b) (pen_stats b) (n_pushback b).
 
   Definition incr_enq (b : bfs) : bfs :=
-    mkB (pq b) (pushes b) (upperbound b) (min_reached b) (n_visited b) (n_next b) (S (n_enq b)) (n_backjumps b) (pen_stats b).
+    mkB (pq b) (pushes b) (upperbound b) (min_reached b) (n_visited b) (n_next b) (S (n_enq b)) (n_backjumps b) (pen_stats b) (n_pushback b).
 
   (* BestFirstSearch.put: counts all states, enqueues those with cost <= upperbound_cost *)
   Fixpoint put_states (b : bfs) (l : list dstate) (depth : nat) : bfs :=
@@ -91,7 +92,7 @@ Section Search.
 
   Definition bfs_put (b : bfs) (l : list dstate) (depth : nat) : bfs :=
     let b1 := mkB (pq b) (pushes b) (upperbound b) (min_reached b) (n_visited b) (n_next b + length l) (n_enq b)
-                  (n_backjumps b) (pen_stats b) in
+                  (n_backjumps b) (pen_stats b) (n_pushback b) in
     put_states b1 l depth.
 
   (* update_upperbound_goal_state *)
@@ -101,10 +102,10 @@ Section Search.
               | None => Some bound
               | Some u => if Qltb bound u then Some bound else Some u
               end in
-    mkB (pq b) (pushes b) u' (min_reached b) (n_visited b) (n_next b) (n_enq b) (n_backjumps b) (pen_stats b).
+    mkB (pq b) (pushes b) u' (min_reached b) (n_visited b) (n_next b) (n_enq b) (n_backjumps b) (pen_stats b) (n_pushback b).
 
   Definition set_min_reached (b : bfs) (v : bool) : bfs :=
-    mkB (pq b) (pushes b) (upperbound b) v (n_visited b) (n_next b) (n_enq b) (n_backjumps b) (pen_stats b).
+    mkB (pq b) (pushes b) (upperbound b) v (n_visited b) (n_next b) (n_enq b) (n_backjumps b) (pen_stats b) (n_pushback b).
 
   (* update_minimum_reached(cost) with cost not None *)
   Definition update_minimum_reached (b : bfs) (c : Q) : bfs :=
@@ -122,7 +123,7 @@ Section Search.
 
   (* initialize([start_state]) *)
   Definition bfs_initialize (start : dstate) : bfs :=
-    bfs_put (mkB [] 0 None false 0 0 0 0 (mkSt 0 0 0 0)) [start] 0.
+    bfs_put (mkB [] 0 None false 0 0 0 0 (mkSt 0 0 0 0) 0) [start] 0.
 
   (* the while loop of BestFirstSearch.optimization_pass (stop_at_first_min = True).
      Returns the engine and (Some (state, cost) | None). *)
@@ -138,12 +139,15 @@ Section Search.
       | None => Crash    (* unreachable: the queue is not empty here *)
       | Some (e, rest) =>
         let b0 := mkB rest (pushes b) (upperbound b) (min_reached b) (n_visited b) (n_next b) (n_enq b)
-                      (n_backjumps b) (pen_stats b) in
+                      (n_backjumps b) (pen_stats b) (n_pushback b) in
         let s := q_state e in let depth := q_depth e in let c := q_cost e in
         let b1 := update_minimum_reached b0 c in
         if cost_bounds_exceeded b1 c then
           (* repaired: keep the frontier intact *)
-          let b2 := if min_reached b1 then b1 else pq_put b1 s depth c in
+          let b2 := if min_reached b1 then b1 else
+                      let b' := pq_put b1 s depth c in
+                      mkB (pq b') (pushes b') (upperbound b') (min_reached b') (n_visited b') (n_next b') (n_enq b')
+                          (n_backjumps b') (pen_stats b') (S (n_pushback b')) in
           Val (b2, None)
         else
           let bj := match prev_depth with
@@ -151,10 +155,10 @@ Section Search.
                     | None => n_backjumps b1
                     end in
           let b2 := mkB (pq b1) (pushes b1) (upperbound b1) (min_reached b1) (S (n_visited b1)) (n_next b1) (n_enq b1)
-                        bj (pen_stats b1) in
+                        bj (pen_stats b1) (n_pushback b1) in
           if goal_state fa s then
             let b3 := mkB (pq b2) (pushes b2) (upperbound b2) (min_reached b2) (n_visited b2) (n_next b2) (n_enq b2)
-                          (n_backjumps b2) (get_stats b2) in
+                          (n_backjumps b2) (get_stats b2) (n_pushback b2) in
             let b4 := update_upperbound b3 s in
             let b5 := update_minimum_reached b4 c in
             Val (b5, Some (s, c))
